@@ -21,6 +21,7 @@ pub mod c13;
 pub mod c14;
 pub mod c15;
 pub mod c16;
+pub mod c17;
 pub mod c18;
 
 pub fn create(a: &Args) -> Option<Box<dyn Monitor>> {
@@ -38,6 +39,7 @@ pub fn create(a: &Args) -> Option<Box<dyn Monitor>> {
         "C14" => Some(Box::new(c14::C14::new(a))),
         "C15" => Some(Box::new(c15::C15::new(a))),
         "C16" => Some(Box::new(c16::C16::new(a))),
+        "C17" => Some(Box::new(c17::C17::new(a))),
         "C18" => Some(Box::new(c18::C18::new(a))),
         _ => None,
     }
